@@ -309,10 +309,11 @@ def shard_fn(shard, nshards, seed, tier, exe, nconf, nrob):
             if hist:
                 sh.count("documents.with_grow_shrink_history")
         cmds = ["P 0 64 1 x%s 0" % dt.hex()] + hist + ["P 0 64 1 x%s 1" % pt.hex(), "D 1"]
+        # afterwards every scalar of the RESULT is changed in place: neither the patch nor (copy_from mode) the source document may notice
         if mode == 0:
-            cmds += ["PATCH 0 1 0", "D 0", "D 1", "PUT 0", "PUT 1"]
+            cmds += ["PATCH 0 1 0", "D 0", "D 1", "SCRAMBLE 0", "D 1", "PUT 0", "PUT 1"]
         else:
-            cmds += ["PATCH 0 1 1 2", "D 2", "D 1", "D 0", "PUT 0", "PUT 1", "PUT 2"]
+            cmds += ["PATCH 0 1 1 2", "D 2", "D 1", "D 0", "SCRAMBLE 2", "D 1", "D 0", "PUT 0", "PUT 1", "PUT 2"]
         cases.append((cid, cmds))
         meta[cid] = (doc, patch, mode, kind, len(hist))
 
@@ -407,6 +408,13 @@ def shard_fn(shard, nshards, seed, tier, exe, nconf, nrob):
             key, what = "patch-document-modified", "the patch document changed: %s -> %s" % (pdump_before[:150], pdump_after[:150])
         if not key and mode == 1 and lines[6][2:] != refjson.dump(doc):
             key, what = "copy_from-modified", "the copy_from document was changed by the call"
+        if not key and rc == 0:
+            after = lines[7] if mode == 0 else lines[8]
+            if after != pdump_before:
+                key, what = "result-shares-nodes-with-patch", "changing the scalars of the patched document through the setters changed the patch document: %s -> %s" % (pdump_before[:150], after[:150])
+            elif mode == 1 and lines[9][2:] != refjson.dump(doc):
+                key, what = "result-shares-nodes-with-source", "changing the scalars of the result changed the copy_from document"
+            sh.count("results_scrambled_afterwards")
         if not key and lines[-1].split()[1] != "live=0":
             key, what = "leak", "blocks left after releasing document, patch and result: " + lines[-1]
         if key:
